@@ -690,11 +690,114 @@ func resolve(v ssa.Value) ssa.Value {
 		}
 		f := forwardLoad(u)
 		if f == nil {
+			f = writeOnce(u.X)
+		}
+		if f == nil {
 			return v
 		}
 		v = f
 	}
 	return v
+}
+
+// writeOnce: addr is a local variable cell (an Alloc, typically a parameter or local captured by a closure and therefore
+// kept in memory) that is stored exactly once - in the entry block of its function - counting the stores made through
+// the free variables of every closure that captures it, and whose address is used for nothing but loads, that store and
+// captures. Its value is then the stored value everywhere.
+func writeOnce(addr ssa.Value) ssa.Value {
+	al, ok := addr.(*ssa.Alloc)
+	if !ok {
+		if fv, isFV := addr.(*ssa.FreeVar); isFV {
+			if a2 := allocOfFreeVar(fv); a2 != nil {
+				return writeOnce(a2)
+			}
+		}
+		return nil
+	}
+	var stores []*ssa.Store
+	okUse := true
+	var scan func(v ssa.Value, depth int)
+	scan = func(v ssa.Value, depth int) {
+		if depth > 4 || v.Referrers() == nil {
+			okUse = false
+			return
+		}
+		for _, ref := range *v.Referrers() {
+			switch x := ref.(type) {
+			case *ssa.UnOp:
+				if x.Op != token.MUL {
+					okUse = false
+				}
+			case *ssa.Store:
+				if x.Addr == v {
+					stores = append(stores, x)
+				} else {
+					okUse = false // the address itself is stored somewhere
+				}
+			case *ssa.MakeClosure:
+				fn := x.Fn.(*ssa.Function)
+				for i, b := range x.Bindings {
+					if b == v && i < len(fn.FreeVars) {
+						scan(fn.FreeVars[i], depth+1)
+					}
+				}
+			case *ssa.DebugRef:
+			default:
+				okUse = false
+			}
+		}
+	}
+	scan(al, 0)
+	if !okUse || len(stores) != 1 {
+		return nil
+	}
+	st := stores[0]
+	if st.Parent() != al.Parent() || st.Block() != al.Parent().Blocks[0] {
+		return nil
+	}
+	return st.Val
+}
+
+// allocOfFreeVar: the Alloc a free variable is bound to, when every MakeClosure of its function binds the same one.
+func allocOfFreeVar(fv *ssa.FreeVar) *ssa.Alloc {
+	fn := fv.Parent()
+	idx := -1
+	for i, f := range fn.FreeVars {
+		if f == fv {
+			idx = i
+		}
+	}
+	par := fn.Parent()
+	if idx < 0 || par == nil {
+		return nil
+	}
+	var found *ssa.Alloc
+	okAll := true
+	instrs(par, func(in ssa.Instruction) {
+		mc, ok := in.(*ssa.MakeClosure)
+		if !ok || mc.Fn != ssa.Value(fn) {
+			return
+		}
+		switch b := mc.Bindings[idx].(type) {
+		case *ssa.Alloc:
+			if found != nil && found != b {
+				okAll = false
+			}
+			found = b
+		case *ssa.FreeVar:
+			a2 := allocOfFreeVar(b)
+			if a2 == nil || (found != nil && found != a2) {
+				okAll = false
+			}
+			found = a2
+		default:
+			okAll = false
+		}
+	})
+	if !okAll {
+		return nil
+	}
+	return found
 }
 
 // ---- error-nil tests -------------------------------------------------------------
